@@ -750,6 +750,14 @@ package proxy
 //@   requires sm.localReceiverCancelFuncs != nil && sm.localAckChannels != nil && logger != nil
 //@   ensures @predecessor_evicted: !(shardID in sm.localReceiverCancelFuncs)
 
+// C09: the announcement of a claim carries the claim's own registration time (defect D12, fixed: it carried the time
+// of the broadcast, so two instances could each take the other's announcement for the newer claim and both give
+// the shard up).
+//@ contract (*shardManagerImpl).RegisterShard
+//@   props C09
+//@   requires sm.localShards != nil
+//@   callpre broadcastShardChange: @claim_time_announced: $msgType == "register" && $shard == clientShardID && $at == registeredAt
+
 // C09: a full-state merge records exactly the decoded state under the sender's node name.
 //@ contract (*shardDelegate).MergeRemoteState
 //@   props C09
